@@ -355,6 +355,15 @@ func sectionRules(P *Program, r *Result, ruleErr, ruleMap string) {
 			if fa.prove(ineqGE(fa.nilExpand(rv), linConst(1)), ret.Block(), rootCtx) {
 				continue
 			}
+			// … nor after an info id has been read and dispatched on (padding or any section must go round the loop)
+			for _, dc := range blockConds(ret.Block(), header, 0) {
+				if bo, isBo := dc.Cond.(*ssa.BinOp); isBo && bo.Op == token.EQL {
+					if _, isC := bo.Y.(*ssa.Const); isC && isDispatchedTag(bo.X) && !isErrorType(bo.X.Type()) {
+						okLoop = false
+						detailLoop = "the return at " + P.pos(instrPos(ret)) + " may report success right after an info id was read, without looking at the rest of the header"
+					}
+				}
+			}
 			for _, c := range callsIn(rk) {
 				cc, ok := c.(*ssa.Call)
 				if !ok || !seen[c.Common().StaticCallee()] {
